@@ -188,6 +188,11 @@ func buildBaselines(es []*entry) ([]*baseline, error) {
 	add("tup:three", "tup", tupAttrs([]byte("a"), ref.NStr(0, []byte("value")).Bytes(), []byte("bb"), ref.NInt(0, 300).Bytes(), []byte(""), []byte{0x0c}).Bytes(), td)
 	add("tup:long", "tup", tupAttrs(ref.FillBytes(256, 1), ref.FillBytes(300, 2)).Bytes(), td)
 
+	// ---- byte vector fields
+	sl := []int{mustIdx(es, "codec.ReadSliceInt8(byte vector field)"), mustIdx(es, "codec.ReadSliceUint8(byte vector field)")}
+	add("bytes:3", "args", ref.NBytes(0, []byte("abc")).Bytes(), sl...)
+	add("bytes:300", "args", ref.NBytes(0, ref.FillBytes(300, 1)).Bytes(), sl...)
+
 	// ---- request packets (payload of a frame / datagram)
 	reqOwners := []int{mustIdx(es, "ReadFrom(requestf::RequestPacket)"), mustIdx(es, "Protocol.Invoke(tcp frame)"), mustIdx(es, "Protocol.Invoke(udp datagram)"),
 		mustIdx(es, "Protocol.InvokeTimeout(tcp frame)"), mustIdx(es, "Protocol.InvokeTimeout(udp datagram)")}
@@ -495,7 +500,9 @@ func buildFamilies(c *famCtx, only string) ([]*family, error) {
 	}
 	fams = append(fams, alpha("alphabet24-len3", alphabet24, 3), alpha("alphabet24-len4", alphabet24, 4))
 	if c.thorough {
-		fams = append(fams, alpha("alphabet12-len5", alphabet12, 5), alpha("alphabet8-len6", alphabet8, 6))
+		fams = append(fams, alpha("alphabet24-len5", alphabet24, 5), alpha("alphabet12-len6", alphabet12, 6), alpha("alphabet8-len7", alphabet8, 7))
+	} else {
+		fams = append(fams, alpha("alphabet12-len5", alphabet12, 5))
 	}
 
 	// 3. the baselines themselves (sanity and calibration of the allocation bound)
@@ -536,7 +543,7 @@ func buildFamilies(c *famCtx, only string) ([]*family, error) {
 	if c.thorough && want("mutate2") {
 		var sel []*baseline
 		for _, bl := range c.bases {
-			if len(bl.Bytes) >= 2 && len(bl.Bytes) <= 120 && (isPacketBaseline(bl) || bl.Kind == "struct" && strings.HasSuffix(bl.Name, ":nondefault")) {
+			if len(bl.Bytes) >= 2 && len(bl.Bytes) <= 160 && (isPacketBaseline(bl) || bl.Kind == "struct" && strings.HasSuffix(bl.Name, ":nondefault")) {
 				sel = append(sel, bl)
 			}
 		}
@@ -549,7 +556,7 @@ func buildFamilies(c *famCtx, only string) ([]*family, error) {
 			total += n * (n - 1) / 2 * int64(len(a)*len(a))
 		}
 		fams = append(fams, &family{name: "mutate2", n: total, chunk: 16384, udpFramed: true,
-			bounds: fmt.Sprintf("%d baselines (packets, argument buffers, attribute sets and the all-non-default encoding of every struct, 2..120 bytes) x every pair of positions p<q x every pair of symbols of the 12-symbol alphabet % x, on the baseline's own entries", len(sel), a),
+			bounds: fmt.Sprintf("%d baselines (packets, argument buffers, attribute sets and the all-non-default encoding of every struct, 2..160 bytes) x every pair of positions p<q x every pair of symbols of the 12-symbol alphabet % x, on the baseline's own entries", len(sel), a),
 			gen: func(i int64) ([]byte, string, []int) {
 				k := sort.Search(len(offs), func(j int) bool { return offs[j] > i }) - 1
 				bl := sel[k]
@@ -627,7 +634,7 @@ func buildFamilies(c *famCtx, only string) ([]*family, error) {
 		}
 		fams = append(fams, listFamily("length-bomb",
 			"every embedded length of every baseline (STRING1 byte, STRING4 word, length field of LIST/MAP/SimpleList at any nesting level) replaced by each of {-2^31,-1,0,remaining-1,remaining,remaining+1,2^20,2^31-1} (STRING1: those that fit a byte plus 0x7f,0x80,0xff; containers: as INT and in the narrowest integer form, plus one LONG), on the baseline's own entries",
-			64, false, cs))
+			16, false, cs))
 	}
 
 	// 7. nesting bombs
@@ -740,7 +747,7 @@ func buildFamilies(c *famCtx, only string) ([]*family, error) {
 		}
 		fams = append(fams, listFamily("nest-insert",
 			"every baseline x every gap between its top-level fields that leaves an unused ascending tag (before the first, between, after the last; for framed structs inside the frame) x the 10 nesting constructs x depth {1,10^3}; for packets, argument buffers, attribute sets and two structs also depth {10^5, (thorough: 10^6,) max}; plus every top-level LIST/MAP/struct member replaced by a bomb of its own wire type; on the baseline's own entries",
-			4, true, cs))
+			1, true, cs))
 	}
 
 	// 8. SimpleList with a non-BYTE element head x hostile length
@@ -849,27 +856,45 @@ func buildFamilies(c *famCtx, only string) ([]*family, error) {
 				}
 			}
 		}
-		if c.thorough {
-			for v := 0; v < 65536; v++ {
-				addD("datagram of 2 bytes", []byte{byte(v >> 8), byte(v)})
-			}
-		} else {
-			for _, x := range alphabet24 {
-				for _, y := range alphabet24 {
-					addD("datagram of 2 bytes over the alphabet", []byte{x, y})
-				}
-			}
-		}
-		for _, x := range alphabet12 {
-			for _, y := range alphabet12 {
-				for _, z := range alphabet12 {
-					addD("datagram of 3 bytes over the 12-symbol alphabet", []byte{x, y, z})
-				}
-			}
-		}
 		fams = append(fams, listFamily("udp-short",
-			"datagram entries only: 0..8 zero bytes, 0..8 0xff bytes, every 1-byte datagram, every prefix up to 48 bytes of the datagram of each valid request, 2-byte datagrams (quick: 24-symbol alphabet; thorough: all 65 536), 3-byte datagrams over the 12-symbol alphabet",
+			"datagram entries only: 0..8 zero bytes, 0..8 0xff bytes, every 1-byte datagram, every prefix up to 48 bytes of the datagram of each valid request",
 			32, false, cs))
+	}
+	// 2- and 3-byte datagrams, index-based (a worker is started per case on the unchanged tree, so nothing is precomputed)
+	{
+		udpAlpha := func(name string, a []byte, l int, all bool) *family {
+			n := int64(1)
+			for i := 0; i < l; i++ {
+				if all {
+					n *= 256
+				} else {
+					n *= int64(len(a))
+				}
+			}
+			what := fmt.Sprintf("over the %d-symbol alphabet % x", len(a), a)
+			if all {
+				what = "(all)"
+			}
+			return &family{name: name, n: n, chunk: 32, bounds: fmt.Sprintf("datagram entries only: every %d-byte datagram %s", l, what),
+				gen: func(i int64) ([]byte, string, []int) {
+					b := make([]byte, l)
+					for p := l - 1; p >= 0; p-- {
+						if all {
+							b[p] = byte(i)
+							i >>= 8
+						} else {
+							b[p] = a[i%int64(len(a))]
+							i /= int64(len(a))
+						}
+					}
+					return b, fmt.Sprintf("datagram of %d bytes", l), c.udp
+				}}
+		}
+		if c.thorough {
+			fams = append(fams, udpAlpha("udp-len2", nil, 2, true), udpAlpha("udp-len3", alphabet24, 3, false))
+		} else {
+			fams = append(fams, udpAlpha("udp-len2", alphabet24, 2, false), udpAlpha("udp-len3", alphabet12, 3, false))
+		}
 	}
 
 	// 10. large valid inputs: calibration of the allocation bound at scale
